@@ -56,10 +56,10 @@ Print Assumptions C07_civil_epoch_roundtrip.
 Theorem C07_mlsx_roundtrip : forall st kind name,
   name_ok name ->
   parse_mlsx_line (build_mlsx_string (Some st) kind name)
-  = (name, [ (l_size, str_of_Z (st_size st));
-             (l_create, format_mlsx_time (st_ctime st));
-             (l_modify, format_mlsx_time (st_mtime st));
-             (l_type, kind_text kind) ]).
+  = Ok (name, [ (l_size, str_of_Z (st_size st));
+                (l_create, format_mlsx_time (st_ctime st));
+                (l_modify, format_mlsx_time (st_mtime st));
+                (l_type, kind_text kind) ]).
 Proof. exact mlsx_roundtrip. Qed.
 Print Assumptions C07_mlsx_roundtrip.
 
@@ -77,15 +77,25 @@ Theorem C07_mlsx_time_exact : forall e,
 Proof. intros e H. split; [reflexivity|exact (mlsx_time_exact e H)]. Qed.
 Print Assumptions C07_mlsx_time_exact.
 
-(* the MLSD worker loop + the client's lister: each directory entry exactly once, in order, none
-   invented, each with its own facts (entries are an arbitrary list; names are single components
-   other than "." and "..") *)
+(* the MLSD worker loop, its lines parsed one by one: each directory entry exactly once, in order,
+   none invented, each with its own facts (entries are an arbitrary list; names are single
+   components other than "." and "..").  The client's lister loop over them is
+   C07_client_mlsd_exact below. *)
 Theorem C07_mlsd_entries_exact : forall dir,
   Forall (fun e => entry_name_ok (de_name e)) dir ->
-  client_mlsd (mlsd_lines dir)
-  = map (fun e => (de_name e, entry_of (mlsx_facts (de_stat e) (de_kind e)))) dir.
+  map parse_mlsx_line (mlsd_lines dir)
+  = map (fun e => Ok (de_name e, entry_of (mlsx_facts (de_stat e) (de_kind e)))) dir.
 Proof. exact mlsd_entries_exact. Qed.
 Print Assumptions C07_mlsd_entries_exact.
+
+(* nothing is invented from a line without a pathname: no SP, or nothing after it, is a ValueError
+   (before the fix such a line parsed to the name '.' and was silently skipped) *)
+Theorem C07_mlsx_no_name_rejected : forall s,
+  (forallb (fun x => negb (x =? 32)) (rstrip s) = true \/
+   exists f, rstrip s = f ++ [32] /\ forallb (fun x => negb (x =? 32)) f = true) ->
+  parse_mlsx_line s = Err E_VALUE.
+Proof. exact mlsx_no_name_rejected. Qed.
+Print Assumptions C07_mlsx_no_name_rejected.
 
 (* ---------------- LIST fallback: the date column ---------------- *)
 (* within the last half year, except the one-day window, and with the client's clock between the
@@ -258,10 +268,18 @@ Print Assumptions C07_client_list_exact_partial.
 (* the default path: Client.list() over MLSD through the same loop *)
 Theorem C07_client_mlsd_exact : forall dir,
   Forall (fun e => entry_name_ok (de_name e)) dir ->
-  client_collect (fun l => Ok (parse_mlsx_line l)) entry_has_type (mlsd_lines dir)
+  client_collect parse_mlsx_line entry_has_type (mlsd_lines dir)
   = Ok (map (fun e => (de_name e, entry_of (mlsx_facts (de_stat e) (de_kind e)))) dir).
 Proof. exact client_mlsd_collect. Qed.
 Print Assumptions C07_client_mlsd_exact.
+
+(* a parsed line without a type fact makes the listing a ValueError — also when it is a "." line *)
+Theorem C07_client_list_typeless_rejected : forall pre l post r,
+  Forall (fun x => exists r, parse_mlsx_line x = Ok r /\ entry_has_type (snd r) = true) pre ->
+  parse_mlsx_line l = Ok r -> entry_has_type (snd r) = false ->
+  client_collect parse_mlsx_line entry_has_type (pre ++ l :: post) = Err E_VALUE.
+Proof. exact (client_collect_typeless parse_mlsx_line entry_has_type). Qed.
+Print Assumptions C07_client_list_typeless_rejected.
 
 (* which command reads the listing: MLSD unless it is answered 50x (then LIST, only when the caller
    did not force MLSD), LIST when forced *)
@@ -350,3 +368,11 @@ Proof.
     apply NoDup_cons; [cbn [In]; intros [H|[]]; discriminate|]. apply NoDup_cons; [intros []|apply NoDup_nil].
   - right. split; reflexivity.
 Qed.
+
+(* non-vacuity of C07_client_list_typeless_rejected / C07_mlsx_no_name_rejected:
+   "x=1; ." parses to the name "." with no type fact; "Type=file;" has no pathname *)
+Example C07_typeless_line_exists :
+  parse_mlsx_line [120; 61; 49; 59; 32; 46] = Ok ([46], [([120], [49])]) /\
+  entry_has_type [([120], [49])] = false /\
+  parse_mlsx_line [84; 121; 112; 101; 61; 102; 105; 108; 101; 59] = Err E_VALUE.
+Proof. vm_compute. repeat split; reflexivity. Qed.
